@@ -74,6 +74,7 @@ func setup(env *runner.Env) error {
 	seeds = append(seeds, inflate()...)
 	seeds = append(seeds, shortLarge()...)
 	seeds = append(seeds, cutThenTrailer()...)
+	seeds = append(seeds, hugeLarge()...)
 	nAll = len(seeds)
 	if nBase == 0 {
 		return fmt.Errorf("empty corpus under %s", env.RepoDir)
